@@ -131,7 +131,7 @@ def h_encode(s, programs):
 
 def items(tier, rng):
     q = tier == "quick"
-    progs = P.linear_programs(rng, 6 if q else 40) + P.global_programs(rng, 12 if q else 120, big=not q) + P.pair_programs(rng, 150 if q else 3000) + P.mixed_pair_programs(rng, 40 if q else 400) + P.zero_weight_programs() + P.sum_programs()
+    progs = P.linear_programs(rng, 6 if q else 40) + P.global_programs(rng, 12 if q else 120, big=not q) + P.pair_programs(rng, 150 if q else 3000) + P.mixed_pair_programs(rng, 40 if q else 400) + P.zero_weight_programs() + P.sum_programs() + P.pinned_programs()
     out = []
     for ch in P.chunks(progs, 12):
         out.append({"name": "encode", "harness": "h_encode", "params": {"programs": ch}})
